@@ -101,6 +101,7 @@ fn parse<'input>(
         0,
         &mut doc,
         &id_map,
+        &mut Vec::new(),
     )?;
 
     // Check that the root element is `svg`.
@@ -152,6 +153,7 @@ fn parse_xml_node_children<'input>(
     depth: u32,
     doc: &mut Document<'input>,
     id_map: &HashMap<&str, roxmltree::Node<'_, 'input>>,
+    use_stack: &mut Vec<roxmltree::NodeId>,
 ) -> Result<(), Error> {
     for node in parent.children() {
         parse_xml_node(
@@ -163,6 +165,7 @@ fn parse_xml_node_children<'input>(
             depth,
             doc,
             id_map,
+            use_stack,
         )?;
     }
 
@@ -178,6 +181,7 @@ fn parse_xml_node<'input>(
     depth: u32,
     doc: &mut Document<'input>,
     id_map: &HashMap<&str, roxmltree::Node<'_, 'input>>,
+    use_stack: &mut Vec<roxmltree::NodeId>,
 ) -> Result<(), Error> {
     if depth > 1024 {
         return Err(Error::NodesLimitReached);
@@ -202,7 +206,16 @@ fn parse_xml_node<'input>(
     if tag_name == EId::Text {
         super::text::parse_svg_text_element(node, node_id, style_sheet, doc)?;
     } else if tag_name == EId::Use {
-        parse_svg_use_element(node, origin, node_id, style_sheet, depth + 1, doc, id_map)?;
+        parse_svg_use_element(
+            node,
+            origin,
+            node_id,
+            style_sheet,
+            depth + 1,
+            doc,
+            id_map,
+            use_stack,
+        )?;
     } else {
         parse_xml_node_children(
             node,
@@ -213,6 +226,7 @@ fn parse_xml_node<'input>(
             depth + 1,
             doc,
             id_map,
+            use_stack,
         )?;
     }
 
@@ -593,6 +607,7 @@ fn parse_svg_use_element<'input>(
     depth: u32,
     doc: &mut Document<'input>,
     id_map: &HashMap<&str, roxmltree::Node<'_, 'input>>,
+    use_stack: &mut Vec<roxmltree::NodeId>,
 ) -> Result<(), Error> {
     let link = match resolve_href(node, id_map) {
         Some(v) => v,
@@ -609,6 +624,16 @@ fn parse_svg_use_element<'input>(
 
     // Make sure we're linked to an SVG element.
     if parse_tag_name(link).is_none() {
+        return Ok(());
+    }
+
+    // The linked element is already being expanded by an outer `use`:
+    // a reference cycle of any length.
+    if use_stack.contains(&link.id()) {
+        log::warn!(
+            "Recursive 'use' detected. '{}' will be skipped.",
+            node.attribute((SVG_NS, "id")).unwrap_or_default()
+        );
         return Ok(());
     }
 
@@ -651,7 +676,8 @@ fn parse_svg_use_element<'input>(
         return Ok(());
     }
 
-    parse_xml_node(
+    use_stack.push(link.id());
+    let res = parse_xml_node(
         link,
         node,
         parent_id,
@@ -660,7 +686,10 @@ fn parse_svg_use_element<'input>(
         depth + 1,
         doc,
         id_map,
-    )
+        use_stack,
+    );
+    use_stack.pop();
+    res
 }
 
 fn resolve_css<'a>(
